@@ -1702,6 +1702,9 @@ def run(rep):
     from rules import c03, c15
     must, may = c03.add_summaries(F)
     r04q(rep, F, must, may)
+    # R04r: the cost attached to a registered path is the cost of that path's vertex (C01's R01y under C04's id)
+    from rules import c01_informed
+    c01_informed.r01y(rep, F, rule='R04r')
     # R04p: the admissible bound of a query with several starts is the best over ALL starts (C15's R15c on the generic informed heuristic)
     F15 = facts.load_units(c15.UNITS)
     rep.units.update(c15.UNITS)
